@@ -70,8 +70,8 @@ F("D18f", "C16", L + "ecdsa_sig_checks.py",
   "R-C16-ENTRY", "issuer severity constant")
 F("D18g", "C16", L + "base_check.py", "severity=self.severity, test_name=self.check_name, result=False)", "severity=self.severity, test_name=self.check_name, result=True)",
   "R-C16-ENTRY", "entries start positive")
-F("D18h", "C16", L + "ecdsa_sig_checks.py", "      for i in points[ec_util.PublicPoint(key.ec_info)]:\n        util.SetTestResult(artifacts[i].test_info, test_result)",
-  "      for i in points[ec_util.PublicPoint(key.ec_info)][:1]:\n        util.SetTestResult(artifacts[i].test_info, test_result)",
+F("D18h", "C16", L + "ecdsa_sig_checks.py", "                       ec_util.PublicPoint(key.ec_info))]:\n        util.SetTestResult(artifacts[i].test_info, test_result)",
+  "                       ec_util.PublicPoint(key.ec_info))][:1]:\n        util.SetTestResult(artifacts[i].test_info, test_result)",
   "R-C16-ISSUER", "only first signature of an issuer gets the verdict")
 F("D18i", "C16", L + "util.py", "    old_attached_info.value = value  # update", "    test_info.attached_info.remove(old_attached_info)\n    old_attached_info.value = value  # update",
   "R-C16-WRITERS", "foreign mutation of attached_info")
@@ -1038,3 +1038,15 @@ T("U32", "C12", NS, "    if s > max_state2:\n      if s > maxs:\n        maxs = 
 T("U33", "C18", L + "rsa_util.py", "  r0 = ntheory_util.Inverse2exp(ntheory_util.InverseSqrt2exp(n, k + 1), k + 1)", "  inv_root = ntheory_util.InverseSqrt2exp(n, k + 1)\n  r0 = ntheory_util.Inverse2exp(inv_root, k + 1)", "optional result through a temporary")
 T("U34", "C18", L + "rsa_util.py", "  if n % 8 != 1:\n    return None\n  # Computes a square root r0", "  if 1 != n % 8:\n    return None\n  # Computes a square root r0", "guard mirrored")
 T("U35", "C18", L + "rsa_util.py", "  r0 = ntheory_util.Inverse2exp(ntheory_util.InverseSqrt2exp(n, k + 1), k + 1)", "  inv_root = ntheory_util.InverseSqrt2exp(n, k + 1)\n  if inv_root is None:\n    return None\n  r0 = ntheory_util.Inverse2exp(inv_root, k + 1)", "explicit None test added")
+
+
+# ---------------------------------------------------------------------------------- issuer keys grouped by curve type and point (finding 13, fixed cf045e6)
+_IK = "      point = (sig.issuer_key_info.curve_type,\n               ec_util.PublicPoint(sig.issuer_key_info))"
+_IL = "      for i in points[(key.ec_info.curve_type,\n                       ec_util.PublicPoint(key.ec_info))]:"
+_EF = L + "ecdsa_sig_checks.py"
+ROWS.append({"id": "U36", "prop": "C17", "expect": "fire", "rule": "R-C17-BYVALUE", "what": "the defect itself: issuer keys grouped by coordinates only", "edits": [
+    {"file": _EF, "old": _IK, "new": "      point = ec_util.PublicPoint(sig.issuer_key_info)"},
+    {"file": _EF, "old": _IL, "new": "      for i in points[ec_util.PublicPoint(key.ec_info)]:"}]})
+ROWS.append({"id": "U37", "prop": "C17", "expect": "silent", "what": "key components in the other order, through a temporary", "edits": [
+    {"file": _EF, "old": _IK, "new": "      info = sig.issuer_key_info\n      point = (ec_util.PublicPoint(info), info.curve_type)"},
+    {"file": _EF, "old": _IL, "new": "      for i in points[(ec_util.PublicPoint(key.ec_info), key.ec_info.curve_type)]:"}]})
